@@ -17,6 +17,14 @@ def run(tier, seed, res, lean):
     bad = [b for o in outs for b in o[1]]
     res.coverage['checkids_containers'] = sum(o[0]['checkids'] for o in outs)
     res.coverage['checkids_rejected_previous'] = sum(sum(o[0]['errors'].values()) for o in outs)
+    fouts = pmap(suite_factory.run_filter_shard, [(seed * 2657 + i + 1, 12 if tier == 'quick' else 80) for i in range(16)])
+    fbad = [b for o in fouts for b in o[1]]
+    res.coverage['filter_containers'] = sum(o[0]['filters'] for o in fouts)
+    if fbad:
+        res.violations.append(Violation(
+            'c15-filter-container-correspondence',
+            f'the container the real Filter builds and CM.Model.FilterBag.filterConnect differ: {str({k: v for k, v in fbad[0].items() if k != "desc"})[:300]}',
+            {'suite': 'S-FACTORY/filter', 'theorems': [t for t in lean['theorems'] if 'node_' in t], **fbad[0]}, found_input=False))
     if bad:
         res.violations.append(Violation(
             'c15-checkids-container-correspondence',
